@@ -1359,3 +1359,13 @@ impl Iterator for CompactionIterator<'_> {
 		}
 	}
 }
+
+// Verification hooks (guarded; stripped unless built with cfg(kani) or --cfg surrealkv_verif).
+#[cfg(kani)]
+mod verif_kani {
+	include!(concat!(env!("SURREALKV_VERIF_DIR"), "/kani/iter.rs"));
+}
+#[cfg(all(test, surrealkv_verif))]
+mod verif_replay {
+	include!(concat!(env!("SURREALKV_VERIF_DIR"), "/replay/iter.rs"));
+}
